@@ -237,7 +237,7 @@ Proof.
                                       | Some v => Some (holds (sem q sel (stack ++ [v]) e2))
                                       | None => None end) elems).
     { rewrite map_map. induction H as [|a l Ha _ IHl]; cbn [map]; [reflexivity|]. rewrite Ha, IHl.
-      destruct (sem q sel stack a) as [[| |]|]; try reflexivity; rewrite IHe2; reflexivity. }
+      destruct (sem q sel stack a) as [[| | |]|]; try reflexivity; rewrite IHe2; reflexivity. }
     rewrite Hitems. reflexivity.
   - (* rule set *)
     unfold nlen. rewrite map_length. do 4 f_equal. rewrite map_map. apply map_ext. intros i.
